@@ -20,8 +20,28 @@ type boundedResult struct {
 	Summary  string   `json:"summary"`
 	Failures []string `json:"failures"`
 	Seconds  float64  `json:"seconds"`
+	Races    int      `json:"data_races"`
 	Status   string   `json:"status"` // bounded-pass | bounded-fail | error
 	Cmd      string   `json:"cmd"`
+}
+
+// firstRace: the first frames of the first race report (the two conflicting accesses).
+func firstRace(out string) string {
+	i := strings.Index(out, "WARNING: DATA RACE")
+	if i < 0 {
+		return ""
+	}
+	var keep []string
+	for _, l := range strings.Split(out[i:], "\n") {
+		t := strings.TrimSpace(l)
+		if strings.HasPrefix(t, "/") || strings.HasPrefix(t, "github.com/titpetric/vuego") {
+			keep = append(keep, t)
+		}
+		if len(keep) >= 6 || strings.HasPrefix(t, "Goroutine") {
+			break
+		}
+	}
+	return strings.Join(keep, " <- ")
 }
 
 func firstOr(xs []string) string {
@@ -57,7 +77,14 @@ func runBounded(repo, verif, prop string) []boundedResult {
 		ov, _ := json.Marshal(map[string]any{"Replace": map[string]string{filepath.Join(pkgDir, "zz_govc_bounded_test.go"): f}})
 		ovFile := filepath.Join(tmp, "overlay.json")
 		os.WriteFile(ovFile, ov, 0o644)
-		cmd := exec.Command("go", "test", "-tags", "verif", "-overlay", ovFile, "-vet=off", "-count=1", "-v", "-timeout", "300s", "-run", "^TestBounded", ".")
+		argv := []string{"test", "-tags", "verif", "-overlay", ovFile, "-vet=off", "-count=1", "-v", "-timeout", "300s", "-run", "^TestBounded"}
+		race := false
+		if src, err := os.ReadFile(f); err == nil && strings.Contains(string(src), "// govc:race") {
+			// the stand-in asks for the race detector (C09): a reported data race is a bounded failure
+			argv = append(argv, "-race")
+			race = true
+		}
+		cmd := exec.Command("go", append(argv, ".")...)
 		cmd.Dir = pkgDir
 		cmd.Env = append(os.Environ(), "GOFLAGS=-mod=mod", "GOPROXY=off")
 		t0 := time.Now()
@@ -72,9 +99,15 @@ func runBounded(repo, verif, prop string) []boundedResult {
 			if i := strings.Index(l, "BOUNDED-FAIL"); i >= 0 && len(r.Failures) < 10 {
 				r.Failures = append(r.Failures, strings.TrimSpace(l[i:]))
 			}
+			if race && strings.Contains(l, "WARNING: DATA RACE") {
+				r.Races++
+			}
+		}
+		if r.Races > 0 {
+			r.Failures = append([]string{fmt.Sprintf("BOUNDED-FAIL the race detector reported %d data race(s); first report: %s", r.Races, firstRace(string(b)))}, r.Failures...)
 		}
 		switch {
-		case r.Summary == "":
+		case r.Summary == "" && r.Races == 0:
 			r.Status = "error"
 			r.Failures = append(r.Failures, firstLines(string(b), 8))
 		case len(r.Failures) > 0 || !strings.Contains(r.Summary, "failures=0"):
